@@ -14,7 +14,7 @@ behaviour of the geometric predicates (is_collinear threshold, Arc::center sqrt)
 import re
 from fractions import Fraction
 
-from ..common import short, where
+from ..common import module_region, short, where
 from ..exprs import closure_of, is_param, mentions, mentions_param, strip
 from ..fold import Folder, Unfoldable
 from ..mirlib import Expr, Program, expr_str
@@ -195,7 +195,9 @@ def run(run):
     is_loc = lambda z: z[0] == "call" and z[1].endswith("span::Span::localize")
     POSITIONAL = re.compile(r"span::Span::(bounds|cell_bounds|top_left|localize_point|is_bounded|hit_cell|extract)$|cell::Cell::(is_bounded|snap|localize)")
     for p in sorted(lookups):
-        bodies = sorted(set([p] + prog.closures_of(p)))
+        # the lookup function, its closures and the private helpers of its module that it calls (helper extraction
+        # out of the four copy-pasted bodies is a plausible tidy-up)
+        bodies = module_region(prog, p, stop=r"::(is_subset_of|endorse_\w+_span)$")
         subset = None
         for q in bodies:
             ex = Expr(prog, q)
